@@ -419,6 +419,39 @@ def eval_text(text):
         except (yaml.YAMLError, UnicodeDecodeError):
             pass
     ev = check_text(text, node, cl, legs)
+    # What C14 does not claim, and the generated documents of the 'docs' arm never contain, but mutated texts reach (soak, seed 11):
+    # (a) how a scalar text is converted under a core tag ('!!int' with a full-width digit, a '!'-tagged folded scalar whose text
+    #     ends in a break and matches the timestamp pattern) is C08's subject - the reference is stricter than the converters there;
+    # (b) a NaN key cannot be looked up again even in plain Python, so key agreement is undefined for it (DESIGN 2.6).
+    kept = []
+    extra = set()
+    nan_key = False
+    stack_, seen_ = [node], set()
+    while stack_:
+        n_ = stack_.pop()
+        if id(n_) in seen_:
+            continue
+        seen_.add(id(n_))
+        if n_.id == "mapping":
+            for k_, v_ in n_.value:
+                if k_.id == "scalar" and k_.tag == T + "float" and k_.value.lower().lstrip("+-") == ".nan":
+                    nan_key = True
+                stack_.append(k_)
+                stack_.append(v_)
+        elif n_.id == "sequence":
+            stack_.extend(n_.value)
+    for f in ev.failures:
+        if nan_key and f.key.startswith("differs-from-rule:"):
+            extra.add("text:not-judged:nan-key")
+            continue
+        if f.key.startswith("ill-shaped-accepted:") and "malformed tag:yaml.org,2002:" in f.key:
+            extra.add("text:not-judged:scalar-conversion-under-a-core-tag")
+        elif "key nan missing" in f.msg:
+            extra.add("text:not-judged:nan-key")
+        else:
+            kept.append(f)
+    ev.failures = kept
+    ev.classes = list(ev.classes) + sorted(extra)
     # (the reference names the offending tag: free text here, so the class is cut after 'with tag')
     ev.classes = sorted({c.split(" with tag ")[0] + (" with tag ..." if " with tag " in c else "") for c in ev.classes})
     return ev
